@@ -6,7 +6,7 @@ cd "$(dirname "$0")/.."
 export GOFLAGS=-mod=mod GOPROXY=off
 unset GOSUMDB GOTOOLCHAIN
 python3 lib/mkproject.py
-( cd coq && timeout 3000 make -k -j16 ) || echo "setup: some Coq files did not build (the owning check will report it)"
+( cd coq && timeout 1500 make -k -j16 ) || echo "setup: some Coq files did not build (the owning check will report it)"
 ( cd harness && { cp /repo/utils/go.sum go.sum 2>/dev/null || true; } && mkdir -p bin && for d in cmd/*/; do n=$(basename "$d"); go build -tags verif -o bin/$n ./cmd/$n || echo "setup: harness $n did not build"; done )
 for t in translator*; do [ -d "$t/cmd" ] && ( cd "$t" && mkdir -p bin && for d in cmd/*/; do [ -d "$d" ] || continue; n=$(basename "$d"); go build -o bin/$n ./cmd/$n || echo "setup: translator $n did not build"; done ); done
 echo setup done
